@@ -305,7 +305,10 @@ cdef class LinearRegressorCriterion(CommonRegressorCriterion):
         cdef int nrhs = 1
         cdef int lda = row
         cdef int ldb = row
-        cdef float64_t rcond = -1
+        # singular values below max(row, col) * eps * the largest one are treated as
+        # zero (same cut-off as numpy.linalg.lstsq): with rcond=-1, the rounding noise of
+        # an exactly collinear design was inverted
+        cdef float64_t rcond = <float64_t>max(row, col) * 2.220446049250313e-16
         cdef int rank
         cdef int work = <int>self.work
 
